@@ -109,7 +109,7 @@ fn rule_menus() -> Vec<RuleMenu> {
         RuleMenu { name: "remove_assertions", variants: vec!["", "preserve_arguments_side_effects: false", "preserve_arguments_side_effects: true"], invalid: vec!["preserve_arguments_side_effects: 'yes'", "preserve_arguments_side_effects: 1", "preserve: true"], requires_properties: false },
         RuleMenu { name: "remove_debug_profiling", variants: vec!["", "preserve_arguments_side_effects: false"], invalid: vec!["preserve_arguments_side_effects: 'no'", "x: 1"], requires_properties: false },
         RuleMenu { name: "remove_attribute", variants: vec!["", "match: ['^native$']", "match: ['a', 'b']", "match: ['deprecated']", "match: []"], invalid: vec!["match: ['(']", "match: 'native'", "match: [1]", "matches: ['a']"], requires_properties: false },
-        RuleMenu { name: "remove_comments", variants: vec!["", "except: ['^--!']", "except: ['c']", "except: ['^--!', 'long']", "except: []"], invalid: vec!["except: ['^[0-9']", "except: 'c'", "except: [1]", "excepts: ['a']"], requires_properties: false },
+        RuleMenu { name: "remove_comments", variants: vec!["", "except: ['^--!']", "except: ['c']", "except: ['^--!', 'long']", "except: []", "except: ['']", "except: ['^--!', '']"], invalid: vec!["except: ['^[0-9']", "except: 'c'", "except: [1]", "excepts: ['a']"], requires_properties: false },
         RuleMenu { name: "remove_interpolated_string", variants: vec!["", "strategy: 'string'", "strategy: 'tostring'"], invalid: vec!["strategy: 'format'", "strategy: 1", "strat: 'string'"], requires_properties: false },
         RuleMenu {
             name: "rename_variables",
